@@ -176,6 +176,13 @@ def main():
         r2 = need_ok(tlc("M2MRun", cfg("run-%s.cfg" % mut, runcfg % ("1, 2", "3", 1, 2, mut, "")), workers=4, timeout=600, heap="4g"), "M2MRun " + mut)
         if not r2.violated:
             raise Infra("sanity: M2MRun with Mut=%s should violate an invariant" % mut)
+    # a limit of the design the manual hints at ("protect against simultaneous access by a mail reader"): a delivering qmail-local
+    # that opened the mbox before the rename appends to an inode $MAIL no longer names.  The model must show it (WriterKeeps fails).
+    r3 = need_ok(tlc("M2MRun", cfg("run-writer.cfg", "SPECIFICATION Spec\nCONSTANTS Msgs = {1, 2}\n Late = {3}\n MaxFaults = 1\n MaxRuns = 2\n Mut = \"writer\"\nINVARIANT WriterKeeps\nCHECK_DEADLOCK FALSE\n"),
+                     workers=4, timeout=600, heap="4g"), "M2MRun writer")
+    if "WriterKeeps" not in r3.violated:
+        raise Infra("M2MRun: the variant with a delivering qmail-local beside maildir2mbox should lose that delivery")
+    ck.cov["design_limit_shown_by_the_model"] = "a delivery to the mbox that waits for maildir2mbox's lock is appended to the replaced inode (WriterKeeps fails for Mut = writer)"
     r2 = need_ok(tlc("M2MRun", cfg("run-cov.cfg", runcfg % ("1, 2", "3", 1, 2, "none", "INVARIANT SecondRunNeverCompletes\n")), workers=4, timeout=600, heap="4g"), "M2MRun coverage")
     if "SecondRunNeverCompletes" not in r2.violated:
         raise Infra("coverage: no behaviour of M2MRun completes a second run after a crash between rename and unlink")
